@@ -348,6 +348,12 @@ def r5_axis_roles(rule, root=None):
                 return env.vars[n]
         raise S.Untranslatable(A.unparse(e)[:40])
 
+    # every row is built in full: no iteration of the row loop may be skipped or cut short (an "identity row"
+    # shortcut that looks only at the diagonal and the translation drops the off-diagonal terms of a shear)
+    jumps = [n for n in A.walk(loop["body"]) if n.get("k") in ("Continue", "Break", "Return")]
+    row_writes = [a for a in A.find(loop["body"], "Assign") if str(A.ftxt(a["left"])) in ("out[%s]" % ivar, "*%s" % slotvar)]
+    if jumps or len(row_writes) != 1 or (A.path_conjuncts(loop["body"], row_writes[0]) or set()):
+        rule.bad("affine|row|partial", "the affine row loop skips or special-cases some rows (%s): every new axis must be the full combination m[i,0]*x + m[i,1]*y + m[i,2]*z + m[i,3]" % ("a `%s` inside the loop" % jumps[0]["k"].lower() if jumps else "%d row assignments / a conditional one" % len(row_writes)), A.where(fn, jumps[0] if jumps else loop))
     try:
         out = None
         for s_ in loop["body"]["stmts"]:
